@@ -58,7 +58,7 @@ CLAIMED = {
  "C03": dict(
   text="Coq theorems for every block: BC1 palettes (both modes, mode chosen by endpoint order only for BC1; BC2/BC3 always four colours) have every channel of every entry equal to the exact 2/3-1/3 or 1/2-1/2 interpolation of the 5/6-bit fields rounded to the nearest 8-bit value; BC4/BC5/BC3-alpha palettes (UNORM and SNORM with both minimum codes = -1, 6- or 4-interpolant mode by endpoint order) are the exact interpolation rounded to nearest at 8 and 16 bits; BC2 alpha and the 16-bit widening are exact; pixel selection reads the documented index bits. BC7: for every 16-byte block the decoder as implemented (promote, decompress_single_index + get_index on a u64, x4 weights, tables regenerated from the source on every run) equals a specification-shaped decoder (mode table, bit replication, indices read one by one with anchors one bit narrower, ((64-w)e0 + w e1 + 32) >> 6, frozen tables), interpolation is the exact weighted average rounded to nearest and never wraps u16, reserved mode gives zeros. BC6H: an integer model of the whole decoder whose bit layout is regenerated from the source and proved equal to the frozen specification table, itself structurally checked (every bit of every endpoint component assigned exactly once with the mode's widths; header lengths), reserved modes zero, interpolation nearest. F32 outputs of all families are modelled over the IEEE model of C04 and compared bit for bit. Tied to the code by differential execution of dds::decode against the extracted model on exhaustive-by-decomposition block families (100k blocks per run).",
   ref="DESIGN.md §6 C03",
-  note="Partial: the blue channel BC3_UNORM_NORMAL reconstructs (square root) is not modelled; BC6H has no implementation-shaped-versus-specification-shaped equivalence theorem (one model, compared with the code). Found and repaired F7 (BC3 three-colour mode) and F15 (BC4/BC5 F32 interpolants one ULP off). The BC7 partition tables and the BC6H bit layout of the specification were transcribed from the pinned commit (no independent copy offline) - their structure is proved and any later change of the source tables breaks tables_tie and the correspondence. Trusted: Coq kernel, extraction, the harness, the specification files spec/SpecBC.v and spec/SpecBC7Tables.v.",
+  note="Partial: the blue channel BC3_UNORM_NORMAL reconstructs (square root) is not modelled; for BC6H the implementation-shaped decoder is proved equal to the same decoder over the frozen specification tables with sequential index reads (the arithmetic of unquantisation and interpolation is shared). Found and repaired F7 (BC3 three-colour mode) and F15 (BC4/BC5 F32 interpolants one ULP off). The BC7 partition tables and the BC6H bit layout of the specification were transcribed from the pinned commit (no independent copy offline) - their structure is proved and any later change of the source tables breaks tables_tie and the correspondence. Trusted: Coq kernel, extraction, the harness, the specification files spec/SpecBC.v and spec/SpecBC7Tables.v.",
   tech="Coq proof (finite sweeps lifted by lemma for the integer finalisers, div/mod bit-field lemmas and induction over pixels for the BC7 index stream) + differential execution"),
  "C04": dict(
   text="Coq theorems over the whole input domain of each conversion: UNORM fields of 1..16 bits to 8/16-bit outputs are v/(2^n-1) rounded to nearest; SNORM bytes/words treat both minimum codes as -1 and round to nearest; XR bias is (x-0x180)/510 clamped and rounded; every F32 output of a UNORM/SNORM/XR field is the correctly rounded quotient (nearest binary32) for all codes incl. all 65536 16-bit ones; half, 11-bit, 10-bit and shared-exponent floats are exact at F32 and clamp01(value)*max rounded to nearest at 8/16 bits. Bit fields, channel order, defaults and chroma pairing of all 45 formats are stated in model/Uncomp.v and compared with dds::decode bit for bit at U8/U16/F32; the float arithmetic is an executable IEEE model compared with the hardware operations.",
